@@ -57,9 +57,10 @@ func IterateProcessedTime(store storetypes.KVStore, cb func(key, val []byte) boo
 	defer iterator.Close()
 	for ; iterator.Valid(); iterator.Next() {
 		key := iterator.Key()
-		keySplit := strings.Split(string(key), "/")
+		// the 16 height bytes may themselves contain '/' (0x2f), so split off at most two parts
+		keySplit := strings.SplitN(string(key), "/", 2)
 		// processed time key in prefix store has format: "consensusState/<height>/processedTime"
-		if len(keySplit) != 3 || keySplit[2] != "processedTime" {
+		if len(keySplit) != 2 || len(keySplit[1]) != 16+len(KeyProcessedTime) || !strings.HasSuffix(keySplit[1], string(KeyProcessedTime)) {
 			// ignore all consensus state keys
 			continue
 		}
